@@ -1,4 +1,4 @@
 //! proptest strategies (everything random happens inside them, so failures shrink and replay)
-pub mod message;
 pub mod bytes;
 pub mod fibex;
+pub mod message;
